@@ -266,7 +266,7 @@ func runCheck(repo, verif, prop, tier, fnFilter string, relock, verbose bool) in
 	lobls := e.lemmaObligations(prop)
 	obls = append(obls, lobls...)
 	// solve
-	timeout := 10
+	timeout := 20
 	confirm := false
 	if tier == "thorough" {
 		timeout = 120
